@@ -140,7 +140,9 @@ def check_global_func_def(
     assert all(inp.name is not None for inp in ty.inputs)
 
     check_invalid_under_dagger(func_def, ty.unitary_flags)
-    cfg = CFGBuilder().build(func_def.body, returns_none, globals, ty.unitary_flags)
+    cfg = CFGBuilder().build(
+        func_def.body, returns_none, globals, ty.unitary_flags, parent=func_def
+    )
     inputs = [
         Variable(cast(str, inp.name), inp.ty, loc, inp.flags, is_func_input=True)
         for inp, loc in zip(ty.inputs, args, strict=True)
